@@ -311,6 +311,8 @@ func Run(tier string, seed int64, outDir string) *common.Meta {
 				obsClass = "err-unknown-failon"
 			case strings.Contains(err.Error(), "no file matching"):
 				obsClass = "err-nomatch"
+			case strings.Contains(err.Error(), "syntax error in pattern"):
+				obsClass = "err-badpattern"
 			default:
 				obsClass = "err-parse"
 			}
@@ -356,7 +358,7 @@ func Run(tier string, seed int64, outDir string) *common.Meta {
 		var wantFired []string
 		anyFile := false
 		for _, p := range pats {
-			if !p.bad && len(p.files) == 0 {
+			if len(p.files) == 0 { // a malformed pattern matches no file either
 				noMatch = true
 			}
 			for _, f := range p.files {
@@ -425,7 +427,7 @@ func Run(tier string, seed int64, outDir string) *common.Meta {
 			sk = append(sk, s)
 		}
 		sort.Strings(sk)
-		obsCoq := map[string]string{"ok": "OOk", "err-unknown-failon": "OErrUnknown", "err-nomatch": "OErrNoMatch", "err-parse": "OErrParse"}[obsClass]
+		obsCoq := map[string]string{"ok": "OOk", "err-unknown-failon": "OErrUnknown", "err-nomatch": "OErrNoMatch", "err-badpattern": "OErrBadPattern", "err-parse": "OErrParse"}[obsClass]
 		lines = append(lines, fmt.Sprintf("  ({| c_rules := %s; c_fail_on := %s; c_legacy := %s; c_enable := %s; c_disable := %s |}, %s, %s, %s, %s, %s)",
 			coqfmt.Str(rules), coqfmt.Str(c.failOn), coqfmt.Bool(c.legacy), coqfmt.Str(c.enable), coqfmt.Str(c.disable),
 			coqfmt.List(ps), obsCoq, coqfmt.StrList(fired), coqfmt.StrList(sk), coqfmt.Bool(execErr)))
@@ -437,7 +439,7 @@ func Run(tier string, seed int64, outDir string) *common.Meta {
 		os.RemoveAll(dir)
 	}
 	hdr := `From GC Require Import Base Model_RuleFiles.
-Inductive obs := OOk | OErrUnknown | OErrNoMatch | OErrParse.
+Inductive obs := OOk | OErrUnknown | OErrNoMatch | OErrBadPattern | OErrParse.
 Fixpoint ins (x : string) (l : list string) : list string :=
   match l with [] => [x] | y :: r => if String.leb x y then x :: l else y :: ins x r end.
 Definition sort_s (l : list string) : list string := fold_right ins [] l.
@@ -446,6 +448,7 @@ Definition case_ok (k : rg_config * list pattern * obs * list string * list stri
   match init c ps, o with
   | InitErr ErrUnknownFailOn, OErrUnknown => true
   | InitErr (ErrNoMatch _), OErrNoMatch => true
+  | InitErr (ErrBadPattern _), OErrBadPattern => true
   | InitErr (ErrParse _), OErrParse => true
   | InitNoop, OOk => match fired with [] => negb exec_err | _ => false end
   | InitOk st, OOk => list_eqb String.eqb (sort_s (map g_name (active st))) fired
